@@ -282,6 +282,13 @@ func (ex *Exec) specialCall(callee *ssa.Function, c *ssa.Call, args []Val) bool 
 		ln := ex.lenOf(args[0], c.Common().Args[0].Type())
 		if len(r.Tup) == 2 {
 			ex.assumeHere(fmt.Sprintf("(and (=> (> %s 0) (and (<= 1 %s) (<= %s %s) (<= %s 4))) (=> (= %s 0) (= %s 0)) (<= 0 %s) (<= %s 1114111))", ln, r.Tup[1].T, r.Tup[1].T, ln, r.Tup[1].T, ln, r.Tup[1].T, r.Tup[0].T, r.Tup[0].T))
+			// a code point above the BMP is encoded in four bytes, one above 0x7FF in at least three
+			ex.assumeHere(fmt.Sprintf("(and (=> (> %s 65535) (= %s 4)) (=> (and (> %s 2047) (not (= %s 65533))) (>= %s 3)))", r.Tup[0].T, r.Tup[1].T, r.Tup[0].T, r.Tup[0].T, r.Tup[1].T))
+			if callee.Name() == "DecodeRuneInString" {
+				// an ASCII first byte decodes to itself with width 1; any other first byte to a rune >= 0x80
+				b0 := fmt.Sprintf("(str_at %s 0)", args[0].T)
+				ex.assumeHere(fmt.Sprintf("(=> (> %s 0) (ite (< %s 128) (and (= %s %s) (= %s 1)) (>= %s 128)))", ln, b0, r.Tup[0].T, b0, r.Tup[1].T, r.Tup[0].T))
+			}
 		}
 		ex.e.note("assumed contract: utf8.DecodeRuneInString returns 1 <= width <= len(s) for non-empty s")
 		ex.vals[c] = r
